@@ -370,6 +370,21 @@ VARIANTS = [
                 ("            saved_frames,\n            resampler,\n            channel_mask,\n        })\n    }\n}\n\nimpl<T> Resampler<T> for FftFixedIn<T>", "            saved_frames,\n            resampler,\n            channel_mask,\n            shared: std::sync::Arc::new(std::sync::Mutex::new(0)),\n        })\n    }\n}\n\nimpl<T> Resampler<T> for FftFixedIn<T>")]),
     dict(property="C18", name="address-dependent-branch", file=SINC, expect="R-C18-ambient",
          old="        let mut idx = self.last_index;\n\n        let mut n = 0;", new="        let mut idx = self.last_index;\n        if (self.buffer.as_ptr() as usize) % 64 == 0 {\n            idx += 0.0;\n        }\n\n        let mut n = 0;"),
+    # ---------------- later additions
+    dict(property="C03", name="avx-guard-forgets-fma", file=AVX, expect="R-C03-cpu-guard", old="static FEATURES: &[CpuFeature] = &[CpuFeature::Avx, CpuFeature::Fma];", new="static FEATURES: &[CpuFeature] = &[CpuFeature::Avx];"),
+    dict(property="C03", name="sse-guard-removed", file=SSE, expect="SseInterpolator::new/guard",
+         old="        if let Some(feature) = FEATURES.iter().find(|f| !f.is_detected()) {\n            return Err(MissingCpuFeature(*feature));\n        }\n", new="        let _ = MissingCpuFeature(FEATURES[0]);\n"),
+    dict(property="C03", name="feature-detection-mixed-up", file="src/error.rs", expect="CpuFeature::Fma", old='is_x86_feature_detected!("fma")', new='is_x86_feature_detected!("avx")'),
+    dict(property="C03", name="fo-buffer-too-small", file=FAST, expect="R-C03-alloc/FastFixedOut", old="let buffer_channel_length = ((max_resample_ratio_relative + 1.0) * needed_input_size as f64)", new="let buffer_channel_length = (max_resample_ratio_relative * 0.5 * needed_input_size as f64)"),
+    dict(property="C04", name="allocate-sized-by-next", file=LIB, expect="R-C04-allocate", old="        let frames = self.input_frames_max();\n        let channels = self.nbr_channels();\n        make_buffer(channels, frames, filled)", new="        let frames = self.input_frames_next();\n        let channels = self.nbr_channels();\n        make_buffer(channels, frames, filled)"),
+    dict(property="C17", name="coerce-through-f32", file="src/sample.rs", expect="R-C17-coerce", old="impl CoerceFrom<usize> for f64 {\n    fn coerce_from(value: usize) -> Self {\n        value as f64", new="impl CoerceFrom<usize> for f64 {\n    fn coerce_from(value: usize) -> Self {\n        value as f32 as f64"),
+    dict(property="C01", name="sinc-without-pi-in-denominator", file=SINCRS, expect="sinc::sinc", old="(value * T::PI).sin() / (value * T::PI)", new="(value * T::PI).sin() / value"),
+    dict(property="C01", name="filter-spectrum-of-inverse-plan", file=SYN, expect="filter-spectrum", old="        fft.process(&mut filter_t, &mut filter_f).unwrap();", new="        let mut scratch_f = vec![Complex::zero(); fft_size_in + 1];\n        fft.process(&mut filter_t, &mut scratch_f).unwrap();"),
+    dict(property="C11", name="any-active-early-exit", file=SYN, expect="R-C11-count", old="        // Copy new samples to input buffer.\n", new="        if !self.channel_mask.iter().any(|a| *a) {\n            return Ok((self.chunk_size_in, needed_len));\n        }\n        // Copy new samples to input buffer.\n"),
+    dict(property="C13", name="input-loop-skips-first", file=LIB, expect="input-coverage", old="    for (chan, wave_in) in wave_in.iter().enumerate().filter(|(chan, _)| mask[*chan]) {", new="    for (chan, wave_in) in wave_in.iter().enumerate().skip(1).filter(|(chan, _)| mask[*chan]) {"),
+    dict(property="C18", name="rounding-mode-set", file=SYN, expect="fp-control", old="    pub fn new(fft_size_in: usize, fft_size_out: usize) -> Self {\n", new="    pub fn new(fft_size_in: usize, fft_size_out: usize) -> Self {\n        #[cfg(target_arch = \"x86_64\")]\n        #[allow(deprecated)]\n        unsafe {\n            core::arch::x86_64::_mm_setcsr(core::arch::x86_64::_mm_getcsr() | 0x8000);\n        }\n"),
+    dict(property="C17", name="align-dependent-size", file=SYN, expect="R-C17-noninterference", old="        let wanted_subsize = chunk_size_in / sub_chunks;\n        let fft_chunks = div_ceil(wanted_subsize, min_chunk_in);\n        let fft_size_out = fft_chunks * sample_rate_output / gcd;\n        let fft_size_in = fft_chunks * sample_rate_input / gcd;\n\n        let resampler = FftResampler::<T>::new(fft_size_in, fft_size_out);\n        debug!(",
+         new="        let wanted_subsize = chunk_size_in / sub_chunks + std::mem::align_of::<T>() - std::mem::align_of::<T>() % 8;\n        let fft_chunks = div_ceil(wanted_subsize, min_chunk_in);\n        let fft_size_out = fft_chunks * sample_rate_output / gcd;\n        let fft_size_in = fft_chunks * sample_rate_input / gcd;\n\n        let resampler = FftResampler::<T>::new(fft_size_in, fft_size_out);\n        debug!("),
 ]
 
 
